@@ -770,7 +770,75 @@ def shard_lf1(acc, shard, nshards, params):
     core.drive(acc, "lf1", case_lf1, ((a, b) for a in u for b in u), shard, nshards, family="lf1[N=%d]" % params)
 
 
-CASES = {"lf1": case_lf1, "iter1": case_iter1, "and1": case_and1, "nest2": case_nest2, "matvec": case_matvec,
+def case_iter1sp(case):
+    """A traced iteration resumed at a start position: rows carry the element's index in the fiber, not the offset
+    from the start position."""
+    ac, sp = case
+    out = []
+    a = mkrow(ac)
+    a.getRankAttrs().setId("K")
+
+    def nest():
+        for k, v in a.iterOccupancy(start_pos=sp):
+            pass
+    f = feats_cells(ac) | {"start_pos>0"}
+    base = run_all("iter1sp", nest, [("K", "iter")], f, out)
+    if base is None:
+        return out
+    st = stored(ac)
+    exp = [((k,), rawpos(ac, k)) for k in present(ac) if rawpos(ac, k) >= sp]
+    check_trace("iter1sp", ("K", "iter"), base.get(("K", "iter"), []), ["K"], exp, f, out, True)
+    return out
+
+
+def shard_iter1sp(acc, shard, nshards, params):
+    cases = ((c, sp) for c in f1(params) for sp in range(1, len(stored(c))))
+    core.drive(acc, "iter1sp", case_iter1sp, cases, shard, nshards, family="iter1sp[N=%d]" % params)
+
+
+def case_seq2(case):
+    """Two loops at the same rank one after the other: a bounded range loop that stops at an element beyond its end,
+    then an intersection.  The rows of the second loop (stamps included) are those it produces on its own."""
+    ac, bc, e = case
+    out = []
+    regs = [("K", "intersect_0"), ("K", "intersect_1")]
+
+    def mk():
+        a, b = mkrow(ac, 1), mkrow(bc, 2)
+        a.getRankAttrs().setId("K")
+        b.getRankAttrs().setId("K")
+        return a, b
+
+    def alone():
+        a, b = mk()
+        for k, (x, y) in a & b:
+            pass
+
+    def after_range():
+        a, b = mk()
+        for k, v in a.iterRange(0, e):
+            pass
+        for k, (x, y) in a & b:
+            pass
+    f = feats_cells(ac, bc) | {"second_loop_at_the_same_rank"}
+    try:
+        r0 = collect(alone, regs, BIG, False)
+        r1 = collect(after_range, regs, BIG, False)
+        compare_runs("seq2", r0, r1, "rows-of-a-loop-depend-on-an-earlier-loop", f, out)
+        core.CUR.nt("seq2")
+    except Exception as ex:
+        out.append(("seq2", "exception:" + type(ex).__name__, set(f) | {"site:" + core.exc_site(ex)}, None,
+                    core.tb_tail(ex)))
+    return out
+
+
+def shard_seq2(acc, shard, nshards, params):
+    u = f1(params)
+    cases = ((a, b, e) for a in u for b in u for e in range(0, params + 1))
+    core.drive(acc, "seq2", case_seq2, cases, shard, nshards, family="seq2[N=%d]" % params)
+
+
+CASES = {"iter1sp": case_iter1sp, "seq2": case_seq2, "lf1": case_lf1, "iter1": case_iter1, "and1": case_and1, "nest2": case_nest2, "matvec": case_matvec,
          "matmul3": case_matmul3, "project": case_project, "popins": case_popins, "flat2": case_flat2,
          "popU": case_popU, "projpop2": case_projpop2}
 
@@ -779,6 +847,9 @@ def run(ctx):
     q = ctx.quick
     ctx.bounds = {
         "iter1": "F1(%d)" % (4 if q else 6), "and1": "pairs of F1(%d)" % (3 if q else 4),
+        "iter1sp": "traced iterOccupancy(start_pos=p) for every p >= 1 over F1(%d)" % (4 if q else 5),
+        "seq2": "a bounded iterRange(0, e) loop followed by an intersection at the same rank, pairs of F1(3), every e: the "
+                "second loop's rows (with stamps) equal those it produces alone",
         "lf1": "leader-follower intersection of pairs of F1(%d): leader elements (intersect_0) and follower look-ups (intersect_1)" % (3 if q else 4),
         "nest2": "two rows in F1(3)%s x b in F1(3)" % ("" if q else " or absent"),
         "matvec": "A in T2(2,2) x B in F1(2)", "matmul3": "A, B in T2(2,2) with <=%d stored leaves" % (2 if q else 3),
@@ -792,6 +863,10 @@ def run(ctx):
         ctx.shards(shard_and1, 3 if q else 4)
     if sel("lf1"):
         ctx.shards(shard_lf1, 3 if q else 4)
+    if sel("iter1sp"):
+        ctx.shards(shard_iter1sp, 4 if q else 5)
+    if sel("seq2"):
+        ctx.shards(shard_seq2, 3)
     if sel("nest2"):
         ctx.shards(shard_nest2, not q)
     if sel("matvec"):
